@@ -73,7 +73,25 @@ type registry struct {
 	nextPort  int
 	dialHook  func(addr string) error
 	aliases   map[string]string // name:port -> numeric address (name resolution)
+	holdDials bool              // connects are in progress (SYN sent) until released
+	holdAddrs map[string]bool   // (only to these addresses, when set)
+	heldDials int
 }
+
+// HoldDials makes every Dial wait, as a connect that takes its time, until HoldDials(false) releases them
+// (controlled executions only; to the given addresses only when some are given). HeldDials reports how many
+// are waiting.
+func HoldDials(on bool, addrs ...string) {
+	r := reg()
+	r.holdDials, r.holdAddrs = on, nil
+	for _, a := range addrs {
+		if r.holdAddrs == nil {
+			r.holdAddrs = map[string]bool{}
+		}
+		r.holdAddrs[a] = true
+	}
+}
+func HeldDials() int { return reg().heldDials }
 
 // Alias makes dialling name reach the listener at addr; the connection's RemoteAddr is addr, as
 // after a real name resolution.
@@ -541,6 +559,11 @@ func Dial(network, address string) (net.Conn, error) {
 	}
 	if real, ok := r.aliases[address]; ok {
 		address = real
+	}
+	if r.holdDials && sched.E != nil && (r.holdAddrs == nil || r.holdAddrs[address]) {
+		r.heldDials++
+		sched.Wait("net-dial-in-progress", Addr(address), func() bool { return !r.holdDials })
+		r.heldDials--
 	}
 	l, ok := r.listeners[address]
 	if !ok || l.closed {
